@@ -383,3 +383,28 @@ for _k, _v in {
     'C20': ' A static file and a no-leap calendar among the command-line datasets.',
 }.items():
     ADDENDA[_k] = ADDENDA.get(_k, '') + _v
+
+# round 13 (concrete cases beyond the symbolic bounds; they run first)
+for _k, _v in {
+    'C01': ' A concrete sweep of every cell of grids with row lengths 49 to 1,117.',
+    'C02': ' A 257 x 258 grid and faces with 9 and 12 nodes.',
+    'C03': ' Dimensions of several hundred elements; many taken dimension names.',
+    'C04': ' Grids up to 257 x 258, a 33,000-node mesh, faces with 9 and 12 nodes.',
+    'C05': ' 2,500 and 1,001 points on 101 x 100 and 5 x 6 grids.',
+    'C06': ' Grids up to 257 x 256, a 5,000-face mesh, faces with 3 to 12 nodes.',
+    'C07': ' Masks up to 260 x 4 and 2 x 515; a node shared by nine faces.',
+    'C08': ' A 260 x 4 grid clipped near row 255; a ring of 65,540 nodes clipped across its seam; int8 / int16 tables near the limits of the type.',
+    'C09': ' Quadrilateral meshes in int8 / int16 tables near the limits of the type, clipped, saved and reopened.',
+    'C10': ' A 50,000-node strip with derived tables.',
+    'C11': ' Fourteen to twenty matching registered conventions; look-alike names longer than the expected ones.',
+    'C12': ' 160 to 33,000 layers; 257- to 66,000-column grids whose last rows are the deepest.',
+    'C13': ' 129 and 200 layers; eleven guessed levels.',
+    'C14': ' Convex cells with 3 to 20 sides, star-shaped cells with 9 to 14 corners; more than 2**16 cells.',
+    'C15': ' More than 2**16 cells; faces with 9 and 12 nodes.',
+    'C16': ' Names of 257 to 1,000 characters; face-edge fill values between the counts.',
+    'C17': ' 300 time steps; variable names of more than 32 characters.',
+    'C18': ' Paths of 11 to 41 vertices over a 3 x 12 grid.',
+    'C19': ' More than 2**16 cells; faces with 9 and 12 nodes.',
+    'C20': ' A 2,500-row station table; box arguments written with 70 digits.',
+}.items():
+    ADDENDA[_k] = ADDENDA.get(_k, '') + _v
